@@ -149,6 +149,67 @@ def rule_alias(c: Ctx) -> RuleResult:
             else:
                 r.add(f"{ci.name}.{name}|classattr", f"markdown_it/{ci.module.rel}:{b.lineno}", ci.name, f"{name} = {U(val)[:40]}",
                       "discharged", "immutable class-level value")
+    # (i-b) no module-level mutable container (or an element of one) is stored into a per-call object: tokens / states of
+    #       different parses would alias one shared object; and no store to class-level state from any method
+    def shared_mutable(f: Func, v: ast.AST) -> str:
+        base = v
+        how = "the container itself"
+        if isinstance(v, ast.Subscript) and not isinstance(v.slice, ast.Slice):
+            base, how = v.value, "an element of"
+        elif isinstance(v, ast.Call) and isinstance(v.func, ast.Attribute) and v.func.attr in ("get", "setdefault", "pop") and not isinstance(v.func.value, ast.Call):
+            base, how = v.func.value, "an element of"
+        if not isinstance(base, ast.Name) or c.tf.scope(f).is_local(base.id):
+            return ""
+        rr = p.resolve_name(f.module, base.id)
+        if not (isinstance(rr, tuple) and rr and rr[0] == "const"):
+            return ""
+        d = getattr(rr[3], "value", None)
+        if d is None:
+            return ""
+        if how == "the container itself":
+            return f"module-level mutable `{base.id}`" if _mutable_expr(d) or isinstance(d, (ast.DictComp, ast.ListComp, ast.SetComp)) else ""
+        elems: list[ast.AST] = []
+        if isinstance(d, ast.Dict):
+            elems = list(d.values)
+        elif isinstance(d, (ast.List, ast.Tuple, ast.Set)):
+            elems = list(d.elts)
+        elif isinstance(d, ast.DictComp):
+            elems = [d.value]
+        elif isinstance(d, (ast.ListComp, ast.SetComp)):
+            elems = [d.elt]
+        if any(_mutable_expr(e) or isinstance(e, (ast.DictComp, ast.ListComp, ast.SetComp)) for e in elems):
+            return f"an element (itself a mutable container) of module-level `{base.id}`"
+        return ""
+
+    nstore = 0
+    for f in sorted(c.cg.api_phase(), key=lambda f: f.qual):
+        sc = c.tf.scope(f)
+        for n in own_nodes(f.node):
+            if not isinstance(n, (ast.Assign, ast.AnnAssign)) or getattr(n, "value", None) is None:
+                continue
+            tg = n.targets if isinstance(n, ast.Assign) else [n.target]
+            for t in tg:
+                if isinstance(t, ast.Attribute) and isinstance(sc.type(t.value), str) and sc.type(t.value).split("@")[0] in (
+                        "Token", "StateBlock", "StateInline", "StateCore", "Delimiter"):
+                    nstore += 1
+                    why = shared_mutable(f, n.value)
+                    if why:
+                        r.add(f"{f.short}|share-in|{alpha(f, n)[:60]}", c.where(f, n), f.short, U(n)[:70], "violation",
+                              f"{why} is stored into a per-call object without a copy: tokens of different documents / parses alias one "
+                              f"object, so mutating one token's `{t.attr}` changes the others")
+    r.notes.append(f"{nstore} stores into per-call objects examined for aliasing of module-level containers")
+    for f in sorted(p.all_funcs(), key=lambda f: f.qual):
+        for n in own_nodes(f.node):
+            tg = n.targets if isinstance(n, ast.Assign) else ([n.target] if isinstance(n, (ast.AugAssign, ast.AnnAssign)) else [])
+            for t in tg:
+                if isinstance(t, ast.Attribute):
+                    b = t.value
+                    is_cls = (isinstance(b, ast.Name) and b.id == "cls") or U(b) in ("self.__class__", "type(self)") or \
+                        (isinstance(b, ast.Name) and not c.tf.scope(f).is_local(b.id) and isinstance(p.resolve_name(f.module, b.id), type(p.classes.get("Token"))))
+                    if is_cls:
+                        r.add(f"{f.short}|class-store|{alpha(f, t)}", c.where(f, n), f.short, U(n)[:70], "violation",
+                              "a method stores into class-level state: every instance (and every subclass resolved through the MRO) "
+                              "shares it, so behaviour depends on which instances were created before")
     # (ii) configuration objects are created per instance by constructor calls / fresh containers
     want = [("MarkdownIt", "inline"), ("MarkdownIt", "block"), ("MarkdownIt", "core"), ("MarkdownIt", "renderer"),
             ("MarkdownIt", "options"), ("ParserCore", "ruler"), ("ParserBlock", "ruler"), ("ParserInline", "ruler"),
